@@ -976,9 +976,16 @@ func (p *queryPlan) projectAndGroupBy() error {
 		})
 		p.tbl.AddBindings(p.stm.OutputBindings())
 		// For each row, copy each input binding value to its appropriate alias.
-		for _, prj := range p.stm.Projections() {
-			for _, row := range p.tbl.Rows() {
-				row[prj.Alias] = row[prj.Binding]
+		// All the values are read before any alias is written, since an alias
+		// may be the name of a binding projected by another projection.
+		prjs := p.stm.Projections()
+		vals := make([]*table.Cell, len(prjs))
+		for _, row := range p.tbl.Rows() {
+			for i, prj := range prjs {
+				vals[i] = row[prj.Binding]
+			}
+			for i, prj := range prjs {
+				row[prj.Alias] = vals[i]
 			}
 		}
 		outputBindings := p.stm.OutputBindings()
